@@ -278,7 +278,7 @@ def r7d(prog, rep):
 REORDER = SORTS | CUSTOM_SORTS | {'reverse', 'rev', 'dedup', 'dedup_by', 'dedup_by_key', 'retain', 'retain_mut', 'swap', 'rotate_left',
                                   'rotate_right', 'swap_remove', 'remove', 'truncate', 'drain', 'split_off', 'pop', 'sorted', 'sorted_by',
                                   'sorted_by_key', 'sorted_unstable', 'select_nth_unstable', 'unique', 'skip', 'step_by', 'take'}
-READER_SEQ = re.compile(r'(Vec<util::rw::DescribedReader|\[util::rw::DescribedReader\]|(IntoIter|Iter|IterMut)<[^>]*util::rw::DescribedReader)')
+READER_SEQ = re.compile(r'(Vec<(acb::)?util::rw::DescribedReader|\[(acb::)?util::rw::DescribedReader\]|(IntoIter|Iter|IterMut)<[^>]*util::rw::DescribedReader)')
 NAME_SEQ = re.compile(r'(Vec<std::string::String|\[std::string::String\]|(IntoIter|Iter|IterMut)<[^>]*std::string::String)')
 UNORDERED = re.compile(r'std::collections::(HashSet|HashMap|BTreeSet|BTreeMap)<')
 
@@ -324,7 +324,10 @@ def r7e(prog, rep, config='default'):
             rep.ok('R7e', k, where=makes[0].where(), fn=fn.name,
                    detail='the reader list is filled in argument order; no sort / reverse / dedup / retain / set on the file-name or reader list')
     want = 1
-    if n < want:
+    if n == 0 and config == 'wasm':
+        rep.ok('R7e', 'no-front-end-in-this-config', detail='the library built with the wasm feature set contains no function that builds the reader list '
+               '(the CLI is compiled out; the acb_wasm entry point is analysed in the default configuration)', trivial=True)
+    elif n < want:
         rep.violation('R7e', 'anchor-lost:reader-list-construction',
                       detail='anchor lost: no front-end function building the Vec<DescribedReader> (config %s)' % config)
 
